@@ -39,6 +39,14 @@ def cases(tier, seed):
                                 if dt == "int" and (nx or dims == "custom"):
                                     continue
                                 yield dict(kind="grid", nn=nn, ne=ne, form=form, nd=nd, nx=nx, dims=dims, dtype=dt)
+            # data / extra-coordinate arrays that are not C-contiguous (Fortran order, transposed views): added after seed C18-1
+            for form in ("1d", "2d"):
+                for nd in (1, 3):
+                    for nx in (0, 2):
+                        yield dict(kind="grid", nn=nn, ne=ne, form=form, nd=nd, nx=nx, dims="default", dtype="float", mem="F")
+            for named in (True, False):
+                yield dict(kind="dataarray", nn=nn, ne=ne, order="ne", named=named, nx=1, mem="F")
+                yield dict(kind="dataarray", nn=nn, ne=ne, order="ne", named=named, nx=1, mem="T")
             for form in ("1d", "2d"):
                 for order in ("desc_n", "desc_e", "desc_both", "unsorted"):
                     yield dict(kind="grid", nn=nn, ne=ne, form=form, nd=2, nx=1, dims="default", dtype="float", order=order)
@@ -53,9 +61,14 @@ def cases(tier, seed):
                 yield dict(kind="roundtrip", nn=nn, ne=ne, nx=nx)
 
 
-def _values(v, nn, ne, dt):
+def _values(v, nn, ne, dt, mem="C"):
     a = np.array([[1e4 * v + 100 * i + j for j in range(ne)] for i in range(nn)])
-    return a.astype(np.int64) if dt == "int" else a + 0.5
+    a = a.astype(np.int64) if dt == "int" else a + 0.5
+    if mem == "F":
+        a = np.asfortranarray(a)
+    elif mem == "T":
+        a = np.ascontiguousarray(a.T).T   # a transposed view of a C-contiguous array
+    return a
 
 
 def run(case, rec):
@@ -76,9 +89,10 @@ def run(case, rec):
     if kind == "grid":
         nd, nx, dt = case["nd"], case["nx"], case["dtype"]
         dims = ("northing", "easting") if case["dims"] == "default" else ("lat", "lon")
-        extras = [_values(7 + k, nn, ne, "float") for k in range(nx)]
+        mem = case.get("mem", "C")
+        extras = [_values(7 + k, nn, ne, "float", mem) for k in range(nx)]
         coords = ((e2, n2) if case["form"] == "2d" else (east, north)) + tuple(extras)
-        data = tuple(_values(v + 1, nn, ne, dt) for v in range(nd))
+        data = tuple(_values(v + 1, nn, ne, dt, mem) for v in range(nd))
         names = ["var%d" % v for v in range(nd)]
         xnames = ["x%d" % k for k in range(nx)]
         kw = dict(dims=dims)
@@ -126,7 +140,7 @@ def run(case, rec):
         rec.cls("grid/%s/nd=%d/nx=%d" % (case["form"], nd, nx))
         return
     if kind == "dataarray":
-        vals = _values(3, nn, ne, "float")
+        vals = _values(3, nn, ne, "float", case.get("mem", "C"))
         order = case["order"]
         if order == "ne":
             da = xr.DataArray(vals, coords={"northing": north, "easting": east}, dims=("northing", "easting"))
@@ -135,7 +149,7 @@ def run(case, rec):
             da = xr.DataArray(vals, coords={"easting": east, "northing": north}, dims=("northing", "easting"))
         extras = {}
         if case["nx"]:
-            up = _values(9, nn, ne, "float")
+            up = _values(9, nn, ne, "float", case.get("mem", "C"))
             da = da.assign_coords(upward=(("northing", "easting"), up))
             extras["upward"] = up
         if case["named"]:
